@@ -82,6 +82,10 @@ theorem keys_erase (l : List (α × β)) (k : α) : keys (erase l k) = (keys l).
   | nil => rfl
   | cons p l ih => simp only [List.filter_cons, List.map_cons]; split <;> simp_all
 
+theorem mem_keys_erase {l : List (α × β)} {k x : α} (h : x ∈ keys (erase l k)) : x ∈ keys l := by
+  rw [keys_erase] at h
+  exact (List.mem_filter.mp h).1
+
 theorem nodup_erase {l : List (α × β)} (h : (keys l).Nodup) (k : α) : (keys (erase l k)).Nodup := by
   rw [keys_erase]; exact h.filter _
 
